@@ -139,16 +139,18 @@ Definition hex_byte (v : N) : bytes := (if v <? 16 then [hex_digit v] else [hex_
 Definition itoa_small (v : Z) : bytes :=
   let n := Z.to_N v in (if n <? 10 then [48 + n] else [48 + n / 10; 48 + n mod 10])%N.
 
-Definition msg_rsv (rsv : N) : bytes := sbytes "unexpected reserved bits 0x" ++ hex_byte rsv.
-Definition msg_ctl_len : bytes := sbytes "control frame length > 125".
-Definition msg_ctl_final : bytes := sbytes "control frame not final".
-Definition msg_start : bytes := sbytes "message start before final message frame".
-Definition msg_cont : bytes := sbytes "continuation after final message frame".
-Definition msg_opcode (t : Z) : bytes := sbytes "unknown opcode " ++ itoa_small t.
-Definition msg_len63 : bytes := sbytes "unexpected payload length".
-Definition msg_mask : bytes := sbytes "incorrect mask flag".
-Definition msg_close_code : bytes := sbytes "invalid close code".
-Definition msg_close_utf8 : bytes := sbytes "invalid utf8 payload in close frame".
+Definition msg_rsv_prefix : bytes := Eval vm_compute in (sbytes "unexpected reserved bits 0x").
+Definition msg_rsv (rsv : N) : bytes := msg_rsv_prefix ++ hex_byte rsv.
+Definition msg_ctl_len : bytes := Eval vm_compute in (sbytes "control frame length > 125").
+Definition msg_ctl_final : bytes := Eval vm_compute in (sbytes "control frame not final").
+Definition msg_start : bytes := Eval vm_compute in (sbytes "message start before final message frame").
+Definition msg_cont : bytes := Eval vm_compute in (sbytes "continuation after final message frame").
+Definition msg_opcode_prefix : bytes := Eval vm_compute in (sbytes "unknown opcode ").
+Definition msg_opcode (t : Z) : bytes := msg_opcode_prefix ++ itoa_small t.
+Definition msg_len63 : bytes := Eval vm_compute in (sbytes "unexpected payload length").
+Definition msg_mask : bytes := Eval vm_compute in (sbytes "incorrect mask flag").
+Definition msg_close_code : bytes := Eval vm_compute in (sbytes "invalid close code").
+Definition msg_close_utf8 : bytes := Eval vm_compute in (sbytes "invalid utf8 payload in close frame").
 
 (* c.read(n): Peek + Discard; a short stream gives errUnexpectedEOF *)
 Definition c_readn (n : nat) (c : conn) : mres bytes :=
@@ -374,7 +376,8 @@ Open Scope N_scope.
 
 (* 5.2 base framing *)
 Record fhdr := mkHdr {
-  f_fin : bool; f_rsv : N; f_op : N; f_masked : bool; f_len : N; f_key : bytes }.
+  f_fin : bool; f_rsv : N; f_op : N; f_masked : bool; f_ext : bool (* 16- or 64-bit length form *);
+  f_len : N; f_key : bytes }.
 
 Inductive hparse :=
 | HEnd                          (* no bytes left *)
@@ -394,22 +397,22 @@ Definition rfc_header (bs : bytes) : hparse :=
     let op := b0 mod 16 in
     let masked := (b1 / 128 =? 1) in
     let l7 := b1 mod 128 in
-    let with_len (len : N) (r : bytes) : hparse :=
+    let with_len (ext : bool) (len : N) (r : bytes) : hparse :=
       if masked then
         match take 4 r with
-        | Some (k, r') => HOk (mkHdr fin rsv op masked len k) r'
+        | Some (k, r') => HOk (mkHdr fin rsv op masked ext len k) r'
         | None => HCut
         end
-      else HOk (mkHdr fin rsv op masked len []) r in
-    if l7 <? 126 then with_len l7 r
+      else HOk (mkHdr fin rsv op masked ext len []) r in
+    if l7 <? 126 then with_len false l7 r
     else if l7 =? 126 then
       match take 2 r with
-      | Some (l, r') => with_len (be_val l) r'
+      | Some (l, r') => with_len true (be_val l) r'
       | None => HCut
       end
     else
       match take 8 r with
-      | Some (l, r') => if two63 <=? be_val l then HBadLen else with_len (be_val l) r'
+      | Some (l, r') => if two63 <=? be_val l then HBadLen else with_len true (be_val l) r'
       | None => HCut
       end
   end.
@@ -467,7 +470,9 @@ Fixpoint rfc_recv (fuel : nat) (server : bool) (cap : N) (open : option (N * lis
       else if (8 <=? f_op h) then
         (* control frames, 5.5 *)
         if (10 <? f_op h) then (rev' evs, OViolation)               (* 0xB-0xF reserved *)
-        else if negb (f_fin h) || (125 <? f_len h) then (rev' evs, OViolation)
+        (* not fragmented; at most 125 bytes, which the minimal-encoding rule of 5.2 puts in the
+           7-bit field: an extended length form on a control frame is oversized or non-minimal *)
+        else if negb (f_fin h) || (125 <? f_len h) || f_ext h then (rev' evs, OViolation)
         else match rfc_payload h rest with
              | None => (rev' evs, OCut)
              | Some (p, rest') =>
